@@ -24,7 +24,7 @@ MANIFEST = dict(
 MODULE = "IwModel.Props.C05"
 THEOREMS = ["IwModel.C05.recover_cut", "IwModel.C05.applied_record_complete", "IwModel.C05.crc_detects_partial", "IwModel.C05.crc_detects_payload_partial",
             "IwModel.C05.recover_cut_reset", "IwModel.C05.prescan_cut_savepoint", "IwModel.C05.segClosedB_sound", "IwModel.C05.segDisjointB_sound",
-            "IwModel.C05.wal_layout_ok"]
+            "IwModel.C05.wal_layout_ok", "IwModel.C05.writer_log_wellformed", "IwModel.C05.writer_recover_cut"]
 
 SEP, SET, COPY, WRITE, RESIZE, SAVEPOINT, RESET = 127, 1, 2, 3, 4, 5, 6
 NAMES = {SEP: "sep", SET: "set", COPY: "copy", WRITE: "write", RESIZE: "resize", SAVEPOINT: "savepoint", RESET: "reset"}
